@@ -6,7 +6,8 @@
 (*   OS/2 (versions 0-5 and the 68-byte legacy form), post (1, 2, 2.5, 3), *)
 (*   name (owned form: records with their strings, language tags),         *)
 (*   cmap subtables 0 / 4 / 6 / 10 / 12 and the cmap table,                *)
-(*   glyf glyph records (simple, composite).                               *)
+(*   glyf glyph records (simple, composite; simple glyphs also in the      *)
+(*   packings other writers use: EncGlyphPacked).                          *)
 (*                                                                         *)
 (* For every kind k:                                                       *)
 (*   InFormat(k, v)  the value is representable in the format at all       *)
